@@ -144,9 +144,15 @@ func C09(c *core.Ctx) error {
 				}
 				return ics[pos]["config"].(core.M)
 			}
-			add("unknown template at "+lvl+" level"+at, true, func(root core.M, pcs, ics []core.M, files map[string]string, s *c09scn) { tgt(pcs, ics)["template"] = "nosuchstyle" })
-			add("unknown formatter at "+lvl+" level"+at, true, func(root core.M, pcs, ics []core.M, files map[string]string, s *c09scn) { tgt(pcs, ics)["formatter"] = "prettier" })
-			add("unknown configuration key at "+lvl+" level"+at, true, func(root core.M, pcs, ics []core.M, files map[string]string, s *c09scn) { tgt(pcs, ics)["no-such-key"] = 1 })
+			add("unknown template at "+lvl+" level"+at, true, func(root core.M, pcs, ics []core.M, files map[string]string, s *c09scn) {
+				tgt(pcs, ics)["template"] = "nosuchstyle"
+			})
+			add("unknown formatter at "+lvl+" level"+at, true, func(root core.M, pcs, ics []core.M, files map[string]string, s *c09scn) {
+				tgt(pcs, ics)["formatter"] = "prettier"
+			})
+			add("unknown configuration key at "+lvl+" level"+at, true, func(root core.M, pcs, ics []core.M, files map[string]string, s *c09scn) {
+				tgt(pcs, ics)["no-such-key"] = 1
+			})
 			add("unreadable custom template at "+lvl+" level"+at, true, func(root core.M, pcs, ics []core.M, files map[string]string, s *c09scn) {
 				tgt(pcs, ics)["template"] = "file://" + filepath.Join(tdir, "missing.templ")
 			})
@@ -184,7 +190,9 @@ func C09(c *core.Ctx) error {
 			root["template-data"] = core.M{"explode": false}
 			ics[pos]["config"].(core.M)["template-data"] = core.M{"explode": "sometimes"}
 		})
-		add("output the formatter rejects"+at, true, func(root core.M, pcs, ics []core.M, files map[string]string, s *c09scn) { pcs[pos]["template-data"] = core.M{"badgo": true} })
+		add("output the formatter rejects"+at, true, func(root core.M, pcs, ics []core.M, files map[string]string, s *c09scn) {
+			pcs[pos]["template-data"] = core.M{"badgo": true}
+		})
 		add("invalid include-interface-regex"+at, true, func(root core.M, pcs, ics []core.M, files map[string]string, s *c09scn) {
 			pkgs(root)[P(pk[pos])] = core.M{"config": core.M{"include-interface-regex": "I("}}
 		})
@@ -252,7 +260,9 @@ func C09(c *core.Ctx) error {
 	}
 	// root-level and file-level faults
 	add("unknown configuration key at the top level", true, func(root core.M, pcs, ics []core.M, files map[string]string, s *c09scn) { root["no-such-key"] = true })
-	add("unknown template at the top level", true, func(root core.M, pcs, ics []core.M, files map[string]string, s *c09scn) { root["template"] = "nosuchstyle" })
+	add("unknown template at the top level", true, func(root core.M, pcs, ics []core.M, files map[string]string, s *c09scn) {
+		root["template"] = "nosuchstyle"
+	})
 	// boolean parameters given through the environment, in every letter case: the documented spellings mean what
 	// they say, no spelling makes mockery panic
 	for _, v := range []string{"true", "True", "TRUE", "false", "False", "FALSE", "tRue", "trUE", "fAlse", "FALSe", "t", "1", "yes", ""} {
@@ -279,7 +289,9 @@ func C09(c *core.Ctx) error {
 			root["packages"].(core.M)[P("a")].(core.M)["interfaces"].(core.M)[which] = core.M{"configs": []core.M{{"structname": "First" + which}, {"structname": "Second" + which, "formatter": "prettier"}}}
 		})
 	}
-	add("unknown formatter at the top level", true, func(root core.M, pcs, ics []core.M, files map[string]string, s *c09scn) { root["formatter"] = "prettier" })
+	add("unknown formatter at the top level", true, func(root core.M, pcs, ics []core.M, files map[string]string, s *c09scn) {
+		root["formatter"] = "prettier"
+	})
 	add("invalid exclude-subpkg-regex at the top level with a recursive package", true, func(root core.M, pcs, ics []core.M, files map[string]string, s *c09scn) {
 		root["exclude-subpkg-regex"] = []any{"("}
 		pcs[1]["recursive"] = true
@@ -372,6 +384,27 @@ func C09(c *core.Ctx) error {
 		pcs[2]["all"] = true
 		s.expect = append(append([]string{}, allMocks...), P("c/sub")+"|IS|MockIS")
 	})
+	// a sub-package reached only through recursion that the go tool itself cannot describe: still a package that fails
+	// to load, not a directory to skip
+	for _, brk := range []struct {
+		name, dir string
+		files     map[string]string
+	}{
+		{"two package names in one directory", "c/sub", map[string]string{"a.go": "package sub\n\ntype IS interface{ M() }\n", "b.go": "package other\n\ntype IO interface{ M() }\n"}},
+		{"a broken package clause", "c/sub", map[string]string{"a.go": "packag sub\n\ntype IS interface{ M() }\n"}},
+		{"two package names in one directory, two levels down", "c/mid/deep", map[string]string{"a.go": "package deep\n\ntype IS interface{ M() }\n", "b.go": "package other\n"}},
+	} {
+		brk := brk
+		add("recursive root with a sub-package that has "+brk.name, true, func(root core.M, pcs, ics []core.M, files map[string]string, s *c09scn) {
+			pcs[2]["recursive"], pcs[2]["all"] = true, true
+			if brk.dir == "c/mid/deep" {
+				files["c/mid/m.go"] = "package mid\n\ntype IM interface{ M() }\n"
+			}
+			for f, src := range brk.files {
+				files[brk.dir+"/"+f] = src
+			}
+		})
+	}
 	add("nested module below a recursive package", false, func(root core.M, pcs, ics []core.M, files map[string]string, s *c09scn) {
 		pcs[2]["recursive"] = true
 		files["c/nested/go.mod"] = "module example.com/nested\n\ngo 1.23\n"
@@ -385,7 +418,7 @@ func C09(c *core.Ctx) error {
 		s.expect = append(append([]string{}, allMocks...), P("a")+"|Null|MockNull", P("a")+"|True|MockTrue", P("a")+"|N123|MockN123")
 	})
 	for name, gm := range map[string]string{
-		"tab separated module directive": strings.Replace(core.GoModText, "module example.com/m", "module\texample.com/m", 1),
+		"tab separated module directive":  strings.Replace(core.GoModText, "module example.com/m", "module\texample.com/m", 1),
 		"quoted module path with comment": strings.Replace(core.GoModText, "module example.com/m", "module \"example.com/m\" // c", 1),
 		"block-form module directive":     strings.Replace(core.GoModText, "module example.com/m", "module (\n\texample.com/m\n)", 1),
 		"module directive last":           strings.Replace(core.GoModText, "module example.com/m\n\n", "", 1) + "\nmodule example.com/m\n",
